@@ -1,5 +1,6 @@
 """C07 - runtime assertions pass only when the asserted relation really holds."""
 import ast
+import dataclasses
 import itertools
 import json
 import re
@@ -8,7 +9,7 @@ import string
 import vlib
 from vlib import Refusal, cstr, clist
 from translate import pymini
-from c07_values import VALUES, ERRORS, BOTH_ORDERS
+from c07_values import VALUES, ERRORS, BOTH_ORDERS, Point, Dog
 
 RUNTIME = 'pedal/assertions/runtime.py'
 
@@ -103,6 +104,34 @@ PAIRS = [('assert_equal', 'assert_not_equal'), ('assert_in', 'assert_not_in'), (
 CLS = {'int': int, 'float': float, 'str': str, 'list': list, 'bool': bool, 'dict': dict, 'tuple': tuple}
 
 
+# assert_type / assert_not_type: expected types by name (the implementation runner holds the same table)
+TYPE_NAMES = ['int', 'float', 'bool', 'str', 'list', 'tuple', 'dict', 'set', 'None', 'list[int]', 'list[str]', 'set[int]', 'dict[str,int]',
+              'tuple[int,str]', 'Dog', 'Point', 'bytes']
+PLAIN = {'int': int, 'float': float, 'bool': bool, 'str': str, 'list': list, 'tuple': tuple, 'dict': dict, 'set': set, 'Dog': Dog, 'Point': Point,
+         'bytes': bytes}
+
+
+def type_relation(a, tname):
+    """is the value of that type?  True / False where there is no room for interpretation, None otherwise (a container with
+    elements of several types, a tuple of another length)"""
+    if tname == 'None':
+        return a is None
+    if tname in PLAIN:
+        return type(a) is PLAIN[tname]
+    outer = PLAIN[tname.split('[')[0]]
+    if type(a) is not outer:
+        return False
+    if tname == 'list[int]' or tname == 'set[int]':
+        return True if all(type(x) is int for x in a) else None
+    if tname == 'list[str]':
+        return True if all(type(x) is str for x in a) else None
+    if tname == 'dict[str,int]':
+        return True if all(type(k) is str and type(v) is int for k, v in a.items()) else None
+    if tname == 'tuple[int,str]':
+        return True if len(a) == 2 and type(a[0]) is int and type(a[1]) is str else None
+    return None
+
+
 def norm_str(s):
     s = s.lower()
     s = ''.join(ch for ch in s if ch not in string.punctuation)
@@ -121,6 +150,13 @@ def spec_equal(a, b, exact=False, delta=0.001):
                 return False
             return abs(a - b) < delta
         return a == b
+    if dataclasses.is_dataclass(a) and dataclasses.is_dataclass(b):
+        return a == b      # instances: Python's own (generated) equality
+    if isinstance(a, Dog) and isinstance(b, Dog):
+        return a == b      # the class's own __eq__
+    if isinstance(a, bytes) and isinstance(b, bytes):
+        # equal bytes are equal; how differing bytes are normalised is pedal's own choice
+        return True if a == b else (False if exact else None)
     if isinstance(a, str) and isinstance(b, str):
         if exact:
             return a == b
@@ -254,6 +290,11 @@ def correspondence(ctx):
         for i in range(n):
             for c in CLS:
                 cases.append({'assertion': name, 'left': i, 'right': None, 'wl': rng.random() < 0.5, 'wr': False, 'cls': c})
+    for name in ('assert_type', 'assert_not_type'):
+        for i in range(n):
+            for c in TYPE_NAMES:
+                for wl in ((False, True) if rng.random() < 0.3 else (False,)):
+                    cases.append({'assertion': name, 'left': i, 'right': None, 'wl': wl, 'wr': False, 'cls': c})
     # error operands: on either side of every assertion
     for name in BIN + UN:
         for side in ('left', 'right'):
@@ -371,6 +412,15 @@ def correspondence(ctx):
                 ctx.violation('is_instance:int-float-conflation' if conflation else 'is_instance:%s' % case['cls'],
                               {'case': case, 'observed': r, 'why': '%s(%r, %s) fired=%s but isinstance is %s' % (name, a, case['cls'], fired, want)})
             continue
+        if name in ('assert_type', 'assert_not_type'):
+            want = type_relation(a, case['cls'])
+            if want is not None:
+                want_fire = (not want) if name == 'assert_type' else want
+                if fired != want_fire:
+                    ctx.violation('type:%s:%s' % (name, case['cls']),
+                                  {'case': case, 'observed': r, 'why': '%s(%r, %s) [%s] fired=%s status=%s but the value %s of that type'
+                                                                       % (name, a, case['cls'], wrap, fired, r['status'], 'is' if want else 'is not')})
+            continue
         if case.get('kwargs'):
             kw = case['kwargs']
             want = spec_equal(a, b, exact=kw.get('exact_strings', False), delta=kw.get('delta', 0.001))
@@ -403,6 +453,13 @@ def correspondence(ctx):
                 ctx.violation('equal-asymmetric', {'operands': [res['reprs'][kv[0]], res['reprs'][kv[1]]],
                                                    'why': 'assert_equal(%s, %s) fired=%s but with the arguments swapped fired=%s' % (
                                                        res['reprs'][kv[0]], res['reprs'][kv[1]], ws['rr'], other['rr'])})
+    for (name, kv), ws in by.items():
+        if name == 'assert_type' and 'rr' in ws:
+            o = by.get(('assert_not_type', kv), {})
+            if 'rr' in o and o['rr'] == ws['rr']:
+                ctx.violation('negation-pair:assert_type', {'operands': [res['reprs'][kv[0]], kv[2]],
+                                                            'why': 'assert_type and assert_not_type both %s for %s and %s'
+                                                                   % ('fire' if ws['rr'] else 'pass', res['reprs'][kv[0]], kv[2])})
     for pos, neg in PAIRS:
         for (name, kv), ws in by.items():
             if name != pos or 'rr' not in ws:
@@ -426,8 +483,9 @@ def correspondence(ctx):
             ctx.violation('unit_test-verdict', {'cases': mix, 'observed': r, 'why': 'unit_test returned %s for cases %s' % (r['returned'], mix)})
         if r['success_count'] is not None and r['success_count'] != mix.count('pass'):
             ctx.violation('unit_test-count', {'cases': mix, 'observed': r, 'why': 'success_count=%s for cases %s' % (r['success_count'], mix)})
-    ctx.rule = ('26 assertion functions x a universe of %d operand values (ints, bools, floats around the tolerance, NaN, strings differing '
-                'by case/punctuation/whitespace, lists, nested lists, tuples, dicts, sets, None) : every ordered pair raw/raw (quick: a random '
+    ctx.rule = ('28 assertion functions (incl. assert_type / assert_not_type against 17 expected types) x a universe of %d operand values '
+                '(ints, bools, floats around the tolerance, NaN, strings and bytes differing by case/punctuation/whitespace, lists, nested lists, '
+                'tuples, dicts, sets, None, dataclass instances, objects of an ordinary class) : every ordered pair raw/raw (quick: a random '
                 '40%%), sampled pairs in the three proxied wrappings (values produced by call() on student functions), error values on '
                 'either side, exact_strings; unit_test on every mix of passing/failing/erroring cases up to length 3. '
                 'non-trivial = the assertion fired.' % n)
@@ -461,6 +519,10 @@ def coq_scalar(v, ids):
         ex = ids['exact'].setdefault(v, len(ids['exact']))
         nm = ids['norm'].setdefault(ids['normal_forms'][v], len(ids['norm']))
         return '(SStr %d %d)' % (ex, nm)
+    if isinstance(v, bytes):
+        ex = ids['exact'].setdefault(v, len(ids['exact']))
+        nm = ids['norm'].setdefault(ids['normal_forms']['bytes:' + v.decode('latin-1')], len(ids['norm']))
+        return '(SBytes %d %d)' % (ex, nm)
     if v is None:
         return 'SNone'
     raise NotInUniverse(repr(v))
@@ -536,7 +598,13 @@ def equality_correspondence(ctx):
             # exact rationals vs binary floats: 5.0005 - 4.9995 is 0.001 exactly but 0.00099999999999945 in floating point
             ctx.count('equality:skipped-at-the-rounding-boundary')
             continue
-        observed = ob is True      # an exception inside equality_test (KeyError on a key that only matches within the tolerance) fails the assertion
+        if ob is not True and ob is not False:
+            # equality_test itself must answer: an exception would fail the assertion AND its negated counterpart
+            ctx.violation('equality_test-raises', {'operands': [repr(VALUES[i]), repr(VALUES[j])], 'exact_strings': exact, 'delta': delta,
+                                                   'why': 'equality_test(%r, %r, %s, %s) raised %s; assert_equal and assert_not_equal then both fail'
+                                                          % (VALUES[i], VALUES[j], exact, delta, ob)})
+            continue
+        observed = ob
         items.append('(%s, %s, %s, %s, %s)' % (vlib.cbool(exact), coq_q(delta), terms[i], terms[j], vlib.cbool(observed)))
         idx.append(q)
         ctx.count('equality-pairs-compared-with-the-model')
